@@ -2,6 +2,8 @@
 B = "acnportal.acnsim.models.battery."
 E = "acnportal.acnsim.models.ev."
 S = "acnportal.acnsim.models.evse."
+SA = "acnportal.algorithms.sorted_algorithms.SortedSchedulingAlgo."
+SEARCH = [SA + "discrete_max_feasible_rate", SA + "max_feasible_rate", SA + "max_feasible_rate.<locals>.bisection"]
 SIM = "acnportal.acnsim.simulator.Simulator."
 NET = "acnportal.acnsim.network.charging_network.ChargingNetwork."
 AE = "acnportal.acnsim.events.acndata_events."
@@ -157,42 +159,38 @@ PLAN = {
     ),
     "C07": dict(
         level="other",
+        functions=SEARCH,
         bounded=[dict(module="rt.algomon", fn="algo_monitor", label="every schedule() call of greedy / round-robin during seeded simulations"),
                  dict(module="rt.drivers", fn="sim_monitor", label="simulation-level corollaries under the sorted algorithms", schedulers=["sorted", "rr"])],
-        text="BOUNDED so far: at every call of the real schedule() (greedy and round robin, all five sort orders, estimator and uninterrupted charging on "
-             "and off) during seeded simulations the emitted schedule must be feasible for the network, every pilot accepted by its EVSE, at most the "
-             "session's remaining amp-periods, at most max(estimator bound, minimum pilot under uninterrupted charging), 0 for stations without an "
-             "active session, one value for every station; whole simulations emit no infeasible-schedule warning, raise nothing and never deliver "
-             "more than requested.",
-        note="no obligation is proved for C07 yet (numpy / recursion-heavy code); scope: continuous-from-zero and finite-rate EVSEs as the property says",
-        explanation="bounded run-time contract monitors only (rt.algomon.algo_monitor, rt.simcheck C07.*)",
-        technique="run-time contract monitor on the real functions (bounded stand-in); deductive obligations pending",
+        text="PROVED (all vectors, level lists, brackets; relative to the algorithm-side feasibility predicate FEAS): the two search procedures every "
+             "greedy grant goes through return a feasible value - discrete_max_feasible_rate (loop invariant + termination measure): the returned "
+             "level is feasible unless no level is, in which case 0 is returned; max_feasible_rate / its recursive bisection: the result is feasible "
+             "and inside [lb, ub]; ValueError exactly when the incoming schedule is infeasible, nothing modified. BOUNDED: the composition - "
+             "preprocessing, the allocation loops, round robin, post-processing - is checked at every call of the real schedule() on directly "
+             "constructed binding states and in seeded simulations (feasible for the network, accepted by the EVSE, <= remaining amp-periods, <= "
+             "max(estimator bound, minimum pilot), 0 without an active session, one value per station; no warning, no invalid rate, no over-delivery).",
+        note="FEAS is the value of utils.infrastructure_constraints_feasible (assumed contract: a function of the vector and the infrastructure object); "
+             "that it equals the phasor definition is C06 (monitored); termination of the bisection is not proved (needs the Archimedean property)",
+        explanation="proved: feasibility / bracket postconditions of the search procedures; bounded: whole schedule() calls and simulations (rt.algomon, rt.simcheck)",
+        technique="contract-based deductive verification of the search procedures (loop invariant, recursive contract, pyvc/z3) + run-time contract monitor (bounded) for the composition",
     ),
     "C08": dict(
         level="other",
+        functions=SEARCH,
+        lemmas=["C08.feasible_set_along_one_coordinate_is_an_interval"],
         bounded=[dict(module="rt.algomon", fn="algo_monitor", label="priority allocation of greedy / round-robin / uncontrolled against the specification")],
-        text="BOUNDED so far: for every schedule() call of seeded simulations with distinct priority keys the greedy result is compared station by station "
-             "with the specification - sessions in the chosen priority order (arrival, reverse arrival, estimated departure, laxity, remaining processing "
-             "time with amp-periods computed from each station's voltage), each gets the largest allowable level feasible given the higher-priority grants "
-             "(finite-rate: exact; continuous: the bound if feasible, otherwise feasible and infeasible 0.01 A above); round robin is compared with a "
-             "level-by-level reference that stops a session only when its next level is infeasible at that moment or exceeds its bound; the uncontrolled "
-             "baseline gives exactly the station maximum to active sessions and nothing else.",
-        note="no obligation is proved for C08 yet; feasibility in the specification is the phasor definition with the algorithm-side default tolerances",
-        explanation="bounded run-time contract monitor only (rt.algomon.algo_monitor)",
-        technique="run-time contract monitor on the real functions against an executable specification (bounded stand-in); deductive obligations pending",
-    ),
-    "C10": dict(
-        level="other",
-        bounded=[dict(module="rt.drivers", fn="pair_monitor", label="paired runs: same inputs, permuted stations / constraints / sessions, shifted events, fresh interpreter")],
-        text="BOUNDED: a relation between pairs of runs, checked on the real simulator - every seeded scenario (scripted, uncontrolled, finite-rate greedy and "
-             "round robin, distinct priority keys) is re-run with equal inputs, with permuted station registration order, permuted constraint order, "
-             "permuted session listing order and with all events shifted by k periods; per-station pilots and rates and per-session energies must be "
-             "identical (shifted by k, zero before the shifted origin); a sample of scenarios is re-run in a fresh interpreter and must agree with the "
-             "in-process run (no state leaking between simulations).",
-        note="nothing is proved for C10 itself: it is a 2-safety property over whole runs; the id-keyed postconditions that would give the per-step "
-             "equivariance lemmas (C04 schedule overlay, C06 feasibility, C12 alignment) are themselves only monitored so far; floats are compared exactly",
-        explanation="bounded paired-run monitor only (rt.drivers.pair_monitor)",
-        technique="run-time paired-run monitor on the real simulator (bounded stand-in)",
+        text="PROVED (relative to FEAS): discrete_max_feasible_rate returns the LARGEST allowable level that is feasible given the fixed other entries "
+             "(every higher level is infeasible; 0 if none is feasible) - loop invariant 'all levels above the current index are infeasible'; "
+             "max_feasible_rate returns ub when ub is feasible, otherwise a feasible value in [lb, ub] with an infeasible point at most eps above it "
+             "(contract of the recursive bisection, used at its own recursive calls); lemma: along one coordinate each constraint is a convex "
+             "quadratic, so an infeasible point above a feasible one makes everything above it infeasible - hence 'within eps of the largest "
+             "feasible pilot'. BOUNDED: the priority order (five sort keys, amp-periods from each station's voltage), the sequential allocation loop "
+             "with earlier grants fixed, round robin level by level and the uncontrolled baseline are compared with an executable specification "
+             "on constructed binding states and in simulations.",
+        note="FEAS as in C07; the reduction of the phasor constraint to the quadratic normal form is standard algebra and is not machine-checked here; "
+             "termination of the bisection is not proved",
+        explanation="proved: maximality postconditions of the search procedures + interval lemma; bounded: ordering, allocation loop, round robin, uncontrolled (rt.algomon)",
+        technique="contract-based deductive verification of the search procedures and a convexity lemma (pyvc/z3) + run-time contract monitor against an executable specification (bounded)",
     ),
     "C12": dict(
         level="other",
